@@ -4,6 +4,7 @@ import (
 	"fmt"
 	"go/token"
 	"go/types"
+	"sort"
 	"strings"
 
 	"golang.org/x/tools/go/ssa"
@@ -358,7 +359,7 @@ func ResetFirst(prog *load.Program, fn *ssa.Function, global string) Result {
 // argIdx, receiver = 0) to a call of the function or method named callee; no element is
 // skipped and none is passed twice on one path.
 func EveryElementPassedTo(prog *load.Program, fn *ssa.Function, param string, callee string, argIdx int) Result {
-	res := Result{Name: fnKey(fn) + "/every-element-of-" + param + "-reaches-" + callee, Func: fnKey(fn), Pos: prog.Pos(fn.Pos())}
+	res := Result{Name: fnKey(fn) + "/every-element-of-" + param + "-reaches-" + callee[strings.LastIndex(callee, ".")+1:], Func: fnKey(fn), Pos: prog.Pos(fn.Pos())}
 	var p *ssa.Parameter
 	for _, q := range fn.Params {
 		if q.Name() == param {
@@ -473,4 +474,249 @@ func EveryElementPassedTo(prog *load.Program, fn *ssa.Function, param string, ca
 	res.OK = true
 	res.Detail = "each element of " + param + " is passed to " + callee + " exactly once per iteration"
 	return res
+}
+
+// ErrorsPropagated: every call in fn of a callee whose name ends in `callee` has its error
+// result compared with nil, and the branch taken when it is not nil returns it (possibly
+// wrapped by fmt.Errorf) as fn's own error without doing anything else: no failure of the
+// callee is swallowed.
+func ErrorsPropagated(prog *load.Program, fn *ssa.Function, callee string) Result {
+	short := callee[strings.LastIndex(callee, ".")+1:]
+	res := Result{Name: fnKey(fn) + "/errors-of-" + short + "-are-returned", Func: fnKey(fn), Pos: prog.Pos(fn.Pos())}
+	n := 0
+	for _, b := range fn.Blocks {
+		for _, in := range b.Instrs {
+			c, ok := in.(*ssa.Call)
+			if !ok || !strings.HasSuffix(calleeName(&c.Call), callee) {
+				continue
+			}
+			n++
+			sig := c.Call.Signature()
+			ei := sig.Results().Len() - 1
+			if ei < 0 || sig.Results().At(ei).Type().String() != "error" {
+				res.Detail = callee + " has no error result"
+				return res
+			}
+			var errv ssa.Value
+			if sig.Results().Len() == 1 {
+				errv = c
+			} else {
+				for _, r := range *c.Referrers() {
+					if ex, ok := r.(*ssa.Extract); ok && ex.Index == ei {
+						errv = ex
+					}
+				}
+			}
+			if errv == nil {
+				res.Detail = "the error of a call at " + prog.Pos(c.Pos()) + " is dropped"
+				return res
+			}
+			checked := false
+			for _, r := range *errv.Referrers() {
+				bo, ok := r.(*ssa.BinOp)
+				if !ok || bo.Op != token.NEQ {
+					continue
+				}
+				for _, r2 := range *bo.Referrers() {
+					iff, ok := r2.(*ssa.If)
+					if !ok {
+						continue
+					}
+					then := iff.Block().Succs[0]
+					ret, ok := then.Instrs[len(then.Instrs)-1].(*ssa.Return)
+					if !ok || len(ret.Results) == 0 {
+						continue
+					}
+					last := ret.Results[len(ret.Results)-1]
+					if last == errv || wrapsError(last, errv) {
+						// nothing but the construction of the returned error happens on that branch
+						clean := true
+						for _, ti := range then.Instrs {
+							switch ti.(type) {
+							case *ssa.Store, *ssa.MapUpdate, *ssa.Send, *ssa.Go, *ssa.Defer:
+								clean = false
+							}
+						}
+						if clean {
+							checked = true
+						}
+					}
+				}
+			}
+			if !checked {
+				res.Detail = "the error of the call at " + prog.Pos(c.Pos()) + " is not returned when it is not nil"
+				return res
+			}
+		}
+	}
+	if n == 0 {
+		res.Detail = "no call of " + callee
+		return res
+	}
+	res.OK = true
+	res.Detail = fmt.Sprintf("%d call(s) of %s: each error is returned when it is not nil", n, callee)
+	return res
+}
+
+// wrapsError: v is fmt.Errorf(..., err, ...) (through the variadic slice) or a MakeInterface of err.
+func wrapsError(v, errv ssa.Value) bool {
+	if c, ok := v.(*ssa.Call); ok && calleeName(&c.Call) == "fmt.Errorf" {
+		for _, a := range c.Call.Args {
+			if sl, ok := a.(*ssa.Slice); ok {
+				if al, ok := sl.X.(*ssa.Alloc); ok {
+					for _, r := range *al.Referrers() {
+						if ia, ok := r.(*ssa.IndexAddr); ok {
+							for _, r2 := range *ia.Referrers() {
+								if st, ok := r2.(*ssa.Store); ok {
+									if mi, ok := st.Val.(*ssa.MakeInterface); ok && mi.X == errv {
+										return true
+									}
+									if st.Val == errv {
+										return true
+									}
+								}
+							}
+						}
+					}
+				}
+			}
+		}
+	}
+	if mi, ok := v.(*ssa.MakeInterface); ok && mi.X == errv {
+		return true
+	}
+	return false
+}
+
+// ConstantFormats: every call of a fmt formatting function (Printf, Sprintf, Fprintf,
+// Errorf, ...) in the given functions has a constant format string: data (a value read from
+// the input) is never interpreted as a format, so a '%' in it is printed as it is.
+func ConstantFormats(prog *load.Program, fns map[*ssa.Function]bool) Result {
+	res := Result{Name: "call-graph/format-strings-are-constants", OK: true}
+	formatArg := map[string]int{"fmt.Printf": 0, "fmt.Sprintf": 0, "fmt.Errorf": 0, "fmt.Fprintf": 1, "fmt.Appendf": 1, "log.Printf": 0, "log.Fatalf": 0, "log.Panicf": 0}
+	var bad []string
+	n := 0
+	for fn := range fns {
+		if !inRepo(fn) {
+			continue
+		}
+		for _, b := range fn.Blocks {
+			for _, in := range b.Instrs {
+				c, ok := in.(ssa.CallInstruction)
+				if !ok {
+					continue
+				}
+				idx, ok := formatArg[calleeName(c.Common())]
+				if !ok || idx >= len(c.Common().Args) {
+					continue
+				}
+				n++
+				if !constString(c.Common().Args[idx], 0) {
+					bad = append(bad, fnKey(fn)+" at "+prog.Pos(c.Pos()))
+				}
+			}
+		}
+	}
+	sort.Strings(bad)
+	if len(bad) > 0 {
+		res.OK = false
+		res.Detail = "format string is not a constant: " + strings.Join(bad, "; ")
+	} else {
+		res.Detail = fmt.Sprintf("%d formatting call(s) on the call graph, all with a constant format", n)
+	}
+	return res
+}
+
+// constString: v is built from string constants only (constants, their concatenations,
+// phis of those).
+func constString(v ssa.Value, depth int) bool {
+	if depth > 8 {
+		return false
+	}
+	switch x := v.(type) {
+	case *ssa.Const:
+		return true
+	case *ssa.BinOp:
+		return x.Op == token.ADD && constString(x.X, depth+1) && constString(x.Y, depth+1)
+	case *ssa.Phi:
+		for _, e := range x.Edges {
+			if !constString(e, depth+1) {
+				return false
+			}
+		}
+		return true
+	}
+	return false
+}
+
+// PipelineShape: fn passes one text through the given stages in order, on one file: the
+// text argument of each stage is the first result of the previous stage (nothing else, no
+// alternative path), and the first argument (the file) is the same value in every stage.
+// Stage names are suffixes of callee names; the text argument is the second argument.
+func PipelineShape(prog *load.Program, fn *ssa.Function, stages []string) Result {
+	res := Result{Name: fnKey(fn) + "/text-goes-through-" + strings.Join(shortNames(stages), ">"), Func: fnKey(fn), Pos: prog.Pos(fn.Pos())}
+	calls := make([]*ssa.Call, len(stages))
+	for _, b := range fn.Blocks {
+		for _, in := range b.Instrs {
+			c, ok := in.(*ssa.Call)
+			if !ok {
+				continue
+			}
+			for i, s := range stages {
+				if strings.HasSuffix(calleeName(&c.Call), s) {
+					if calls[i] != nil {
+						res.Detail = "more than one call of " + s
+						return res
+					}
+					calls[i] = c
+				}
+			}
+		}
+	}
+	for i, c := range calls {
+		if c == nil {
+			res.Detail = "no call of " + stages[i]
+			return res
+		}
+	}
+	unwrap := func(v ssa.Value) ssa.Value {
+		for {
+			switch x := v.(type) {
+			case *ssa.Convert:
+				v = x.X
+			case *ssa.ChangeType:
+				v = x.X
+			default:
+				return v
+			}
+		}
+	}
+	file := calls[0].Call.Args[0]
+	for i := 1; i < len(calls); i++ {
+		args := calls[i].Call.Args
+		if len(args) < 2 {
+			res.Detail = stages[i] + " has no text argument"
+			return res
+		}
+		if args[0] != file {
+			res.Detail = stages[i] + " is not applied to the file that was read"
+			return res
+		}
+		ex, ok := unwrap(args[1]).(*ssa.Extract)
+		if !ok || ex.Tuple != ssa.Value(calls[i-1]) || ex.Index != 0 {
+			res.Detail = "the text given to " + stages[i] + " is not (only) the result of " + stages[i-1]
+			return res
+		}
+	}
+	res.OK = true
+	res.Detail = strings.Join(shortNames(stages), " -> ") + " on one file, each stage fed by the previous one"
+	return res
+}
+
+func shortNames(ss []string) []string {
+	var out []string
+	for _, s := range ss {
+		out = append(out, strings.TrimLeft(s[strings.LastIndex(s, "/")+1:], "(*"))
+	}
+	return out
 }
